@@ -25,8 +25,7 @@ RULE = ("cases: (DAG code, target bitmask); (PDAG code, target bitmask) for pdag
 ASSUMPTIONS = ["brute-force oracle correct (counts self-checked)"]
 EXHAUSTIVE = {"quick": True, "thorough": True}
 SOFT_LIMIT = {"quick": 240, "thorough": 1700}
-REQUIRED_FUNCS = ["sempler/utils.py:imec", "sempler/utils.py:dag_to_icpdag", "sempler/utils.py:pdag_to_icpdag",
-                  "sempler/utils.py:chain_graph_IMEC", "sempler/utils.py:maximally_orient"]
+REQUIRED_FUNCS = ["sempler/utils.py:imec", "sempler/utils.py:dag_to_icpdag", "sempler/utils.py:pdag_to_icpdag"]
 REQUIRED_COUNTERS = {"quick": {"imec:proper-subclass": 500, "picpdag:valueerror-expected": 500, "picpdag:value-expected": 500, "imec:chain-shortcut": 20},
                      "thorough": {"imec:proper-subclass": 5000, "picpdag:valueerror-expected": 500, "picpdag:value-expected": 500, "imec:chain-shortcut": 20}}
 N = {"quick": {"dag5": 2500, "weighted": 800, "sampled": 500, "chain_max": 10, "chain_I": 6, "pdagI4": 3},
